@@ -177,7 +177,7 @@ func run(tapeJSON json.RawMessage, res *core.Result) {
 			simrt.SleepExact(int64(s.Add(time.Duration(delta)).Sub(time.Now())))
 			now := time.Now().UTC()
 			mv := world.Accept(tr, st, ktm, now, replay)
-			if mv.Accept == "accept" && taint[mv.ReplayKey] && !replay[mv.ReplayKey] {
+			if mv.Accept == "accept" && world.SameClientTime(taint, mv.ReplayKey) && !replay[mv.ReplayKey] {
 				mv.Accept = "either"
 				mv.Reasons = append(mv.Reasons, "either:replay-state-unknown")
 			}
